@@ -27,9 +27,10 @@
 (***************************************************************************)
 EXTENDS Naturals, Sequences, FiniteSets, TLC, Json, SequencesExt, FiniteSetsExt
 
-CONSTANTS Scope,       \* "tiny" | "small" | "mid" | "full" | "ext" | "bad" | "pick": slice of the input space enumerated by Init
+CONSTANTS Scope,       \* "tiny" | "small" | "full" | "all" | "pick" | "ext" | "bad": slice of the input space enumerated by Init
+                       \* ("all" = the whole product of the slot tables, 6480 graphs: only sampled, through "pick")
           OneByOne,  \* TRUE: one node per closure step in any order (confluence); FALSE: one layer per step
-          Pick,        \* Scope = "pick": set of graph indices into the full slot space (otherwise unused)
+          Pick,        \* Scope = "pick": set of graph indices into the whole slot product (otherwise unused)
           Mutant       \* "none" for the real design; other values are self-test mutants TLC must reject
 
 VARIABLES g, entries, mode, phase, reach, rank, up, rankUp, step
@@ -158,13 +159,13 @@ RS == {"none", "C", "Kind2"}                              \* what the resource m
 Slots(a1, a2, b, c, ref, lro, res) == [a1 : a1, a2 : a2, b : b, c : c, ref : ref, lro : lro, res : res]
 SlotSpace ==
   CASE Scope = "small" -> Slots({"B", "Outer", "Outer.Inner"}, {"none", "Outer.Kind"}, {"none", "A"}, {"none"}, {"none", "Res"}, {"B"}, {"none"})
-    [] Scope = "mid"   -> Slots({"B", "Outer", "Outer.Inner", "A"}, {"Kind", "Outer.Kind"}, {"C", "Outer.Inner.Deep"}, {"B", DepT}, {"ResChild", "Ghost"},
+    [] Scope = "full"  -> Slots({"B", "Outer", "Outer.Inner", "A"}, {"Kind", "Outer.Kind"}, {"C", "Outer.Inner.Deep"}, {"B", DepT}, {"ResChild", "Ghost"},
                                 {"Outer.Inner", "Meta"}, {"C", "Kind2"})
-    [] Scope = "full"  -> Slots(A1, A2, BB, CC, RF, LR, RS)
+    [] Scope = "all"   -> Slots(A1, A2, BB, CC, RF, LR, RS)
     [] Scope = "ext"   -> Slots({"none", "B"}, {"Kind"}, {"C"}, {"none"}, {"none", "Res"}, {"B"}, {"Kind2"})
     [] Scope = "tiny"  -> Slots({"B", "Outer.Inner"}, {"Kind"}, {"C"}, {"B"}, {"Res"}, {"Outer.Inner"}, {"Kind2"})
     [] OTHER           -> Slots({"B"}, {"Kind"}, {"C"}, {"none"}, {"Res"}, {"B"}, {"none"})
-\* Scope = "pick": the graphs of the full space whose index is in Pick (the harness draws the indices from --seed)
+\* Scope = "pick": the graphs of the whole product ("all") whose index is in Pick (the harness draws the indices from --seed)
 A1s == <<"none", "B", "Outer", "Outer.Inner", "A">>
 A2s == <<"none", "Kind", "Outer.Kind">>
 BBs == <<"none", "C", "A", "Outer.Inner.Deep">>
@@ -261,7 +262,7 @@ Spec == Init /\ [][Next]_vars
 
 -----------------------------------------------------------------------------
 (* What the property predicts about the generated library                  *)
-Closed == phase \in {"closed", "done"}
+Closed == phase = "closed"       \* the traversal has terminated ("done" differs from "closed" only in `phase`)
 Required  == IF Sel = "prune" THEN reach \cap Types(g) ELSE Types(g)         \* must be kept
 Permitted == IF Sel = "prune" THEN up \cap Types(g) ELSE Types(g)            \* may be kept
 KeptRpcs  == IF Sel = "prune" THEN reach \cap RpcNames(g) ELSE RpcNames(g)
@@ -310,7 +311,7 @@ Inv_Least == Closed /\ Sel = "prune" /\ ~OneByOne =>
                /\ \A y \in up : y \in Listed \/ \E x \in up : rankUp[x] < rankUp[y] /\ UpRel(g, x, y)
 \* the iteration agrees with the independent recursive definition
 Inv_Decl == Closed /\ Sel = "prune" => reach = Close(g, FALSE, Listed) /\ up = Close(g, TRUE, Listed)
-Inv_Interval == Closed => Required \subseteq Permitted /\ reach \subseteq up
+Inv_Interval == phase \in {"closed", "done"} => Required \subseteq Permitted /\ reach \subseteq up
 \* monotone in M (one element at a time; every M is a case, so this gives M2 \subseteq M => Reach(M2) \subseteq Reach(M) by induction)
 Inv_Mono == Closed /\ Sel = "prune" => \A m \in Listed : Close(g, FALSE, Listed \ {m}) \subseteq reach /\ Close(g, TRUE, Listed \ {m}) \subseteq up
 \* exactly the listed RPCs plus polling methods that a kept extended-operation RPC needs
